@@ -1,8 +1,9 @@
 /-
   NV.Driver.HostsRefresh — `hrefresh <variant> <file1 names> <file2 names> <pool>`:
   which pool names are answered locally (L) or go upstream (U) after loading file 1 (p1) and after
-  the file was rewritten as file 2 and refreshed (p2). variant: ok | long:<k> | dir — the last two
-  make the re-read fail.
+  the file was rewritten as file 2 and refreshed (p2), and after one more refresh (p3). variant: ok | long:<k> | dir (the
+  re-read fails for good) | emfile (the new file cannot be opened at the first refresh, and can at the next: a source that
+  could not be read must be tried again).
 -/
 import NV.Model.HostsRefresh
 namespace NV.HostsRefreshDrv
@@ -19,15 +20,19 @@ def stepHostsRefresh (toks : List String) : Option String :=
   | ["hrefresh", variant, f1, f2, pool] =>
     match parseNames f1, parseNames f2, parseNames pool with
     | some n1, some n2, some pl =>
-      let res : Option ReadRes :=
-        if variant = "ok" then some (.ok n2)
-        else if variant = "dir" then some (.fail [])
+      -- (result of the refresh right after the rewrite, result of the one after it)
+      let res : Option (ReadRes × ReadRes) :=
+        if variant = "ok" then some (.ok n2, .ok n2)
+        else if variant = "dir" then some (.fail [], .fail [])
+        else if variant = "emfile" then some (.fail [], .ok n2)   -- cannot be opened once, then it can
         else match variant.splitOn ":" with
-          | ["long", k] => k.toNat?.map fun k => .fail (n2.take k)
+          | ["long", k] => k.toNat?.map fun k => (.fail (n2.take k), .fail (n2.take k))
           | _ => none
       match res with
       | none => some "bad-op"
-      | some r => some s!"p1={lu n1 pl} p2={lu (refresh n1 r) pl}"
+      | some (r2, r3) =>
+        let t2 := refresh n1 r2
+        some s!"p1={lu n1 pl} p2={lu t2 pl} p3={lu (refresh t2 r3) pl}"
     | _, _, _ => some "bad-op"
   | _ => none
 
